@@ -222,7 +222,7 @@ func (w *World) logf(format string, a ...any) { w.h.Add(fmt.Sprintf(format, a...
 
 // Execute runs one plan inside a fresh bubble.
 func Execute(t *testing.T, p *Plan, prop string) (out runner.Outcome) {
-	if vsched.RaceEnabled && p.Cfg.LB == 0 && !p.Cfg.Client && usesEngineRegister(p) {
+	if vsched.RaceEnabled && p.Cfg.LB == 0 && usesEngineRegister(p) {
 		// Engine.Register is documented as racy under the default Round-Robin policy
 		// ("switch to another load-balancing algorithm ... to avoid data race issue if
 		// you plan on calling this method"): an application that minds the data-race
@@ -1099,13 +1099,20 @@ func (w *World) raceReports() {
 }
 
 func usesEngineRegister(p *Plan) bool {
+	dialers := 0
 	for _, u := range p.Users {
+		dials := false
 		for _, op := range u.Ops {
 			switch op.K {
 			case "register", "enroll", "enroll-other", "register-none":
 				return true
+			case "cdial", "cenroll":
+				dials = true // Client.Dial/Enroll pick the loop through the same balancer
 			}
 		}
+		if dials {
+			dialers++
+		}
 	}
-	return false
+	return dialers > 1
 }
